@@ -968,6 +968,29 @@ var fins = []finDef{
 		var d []Toy
 		return db.Session(&gorm.Session{Initialized: true, Context: ctx, PrepareStmt: true}).Find(&d), &d
 	}},
+	// chains run under an already cancelled context: they fail, and must leave nothing behind
+	// (e.g. in the prepared statement cache shared by the handles of a PrepareStmt Open / Session)
+	// for the chains that render the same SQL afterwards
+	{text: `WithContext(cancelled).Find(&[]User)`, kind: "cancelled", f: func(db *gorm.DB) (*gorm.DB, interface{}) {
+		var d []User
+		return db.WithContext(cancelledCtx()).Find(&d), &d
+	}},
+	{text: `Session{Initialized,Context:cancelled}.Find(&[]User)`, kind: "cancelled", f: func(db *gorm.DB) (*gorm.DB, interface{}) {
+		var d []User
+		return db.Session(&gorm.Session{Initialized: true, Context: cancelledCtx()}).Find(&d), &d
+	}},
+	{text: `WithContext(cancelled).First(&User)`, kind: "cancelled", f: func(db *gorm.DB) (*gorm.DB, interface{}) {
+		var d User
+		return db.WithContext(cancelledCtx()).First(&d), &d
+	}},
+	{text: `WithContext(cancelled).Model(&User{}).Count`, kind: "cancelled", f: func(db *gorm.DB) (*gorm.DB, interface{}) {
+		var n int64
+		return db.WithContext(cancelledCtx()).Model(&User{}).Count(&n), &n
+	}},
+	{text: `WithContext(cancelled).Model(&User{}).Updates(map{age:55})`, kind: "cancelled", write: true, f: func(db *gorm.DB) (*gorm.DB, interface{}) {
+		m := &User{}
+		return db.WithContext(cancelledCtx()).Model(m).Updates(map[string]interface{}{"age": 55}), m
+	}},
 	// the same with the table named by the finisher's own Model/Table call (a fresh value per execution)
 	{text: `Model(&User{}).Count`, kind: "count", write: false, needs: false, f: func(db *gorm.DB) (*gorm.DB, interface{}) { var n int64; return db.Model(&User{}).Count(&n), &n }},
 	{text: `Model(&User{}).Pluck("name")`, kind: "pluck", write: false, needs: false, f: func(db *gorm.DB) (*gorm.DB, interface{}) {
@@ -1495,6 +1518,12 @@ func errText(err error) string {
 	return ptrRe.ReplaceAllString(err.Error(), "0xPTR")
 }
 
+func cancelledCtx() context.Context {
+	ctx, cancel := context.WithCancel(context.Background())
+	cancel()
+	return ctx
+}
+
 // fakeTx wraps the result of an entry point that returns no *gorm.DB (Rows, Row,
 // Association) so that it can be reported like the others: error and row count,
 // no statement.
@@ -2001,23 +2030,6 @@ func leadingOr(shape []bool) bool {
 	return false
 }
 
-// rawJoinsFrom recognises the known class `raw-joins-from-trim`: a chain that
-// carries a Clauses(From{Joins}) clause, raw SQL (Raw) and at least one Joins call.
-// Its query is not built (the SQL is given), yet AfterQuery trims len(Statement.Joins)
-// joins off the FROM clause: the trimmed slice still points into the array of the
-// clause value the handle holds, and the next query of the continued chain appends
-// its join over the handle's element.
-func rawJoinsFrom(cs []int) bool {
-	var raw, joins, from bool
-	for _, c := range cs {
-		d := def(c)
-		raw = raw || d.fam == "raw"
-		from = from || d.fam == "cfrom"
-		joins = joins || d.merge == "JOINS"
-	}
-	return raw && joins && from
-}
-
 func namesTable(cs []int) bool {
 	for _, c := range cs {
 		if f := def(c).fam; f == "model" || f == "table" || strings.HasPrefix(f, "arg-table") {
@@ -2280,12 +2292,6 @@ func genHistory(rt *rapid.T) History {
 			fin := drawFin(chainBase(handleByID(live[ci].from), live[ci].calls), live[ci].calls)
 			// one finish in four of a suitable kind is not the end: the chain continues on the returned value
 			cont := fin < argBase && midKinds[fins[fin].kind] && !fins[fin].write && rapid.IntRange(0, 3).Draw(rt, "continue") == 0
-			if cont && harness.OpenClass("C06", "raw-joins-from-trim") &&
-				rawJoinsFrom(append(append([]int(nil), chainBase(handleByID(live[ci].from), live[ci].calls)...), live[ci].calls...)) {
-				// listed finding: continuing such a chain overwrites the FROM joins of its handle
-				evid.Excluded("raw-joins-from-trim")
-				cont = false
-			}
 			h.Actions = append(h.Actions, Action{Kind: k, C: live[ci].id, Fin: fin, Cont: cont})
 			finishedAt = append(finishedAt, len(h.Actions)-1)
 			if cont {
